@@ -2952,3 +2952,19 @@ package main
 //@   ensures text: result == "func " + lfd.Fvar.Name + "(" + join_prefix(P, ", ", len(lfd.Params)) + ") " + go_type(block_type(lfd.Body)) + "{\n" + bToGoRet(lfd.Body) + "\n}"
 //@   ensures params: forall k int :: 0 <= k && k < len(lfd.Params) ==> P[k] == lfd.Params[k].Name + " " + go_type(lfd.Params[k].Ftype)
 //@   at after call lfdParamsToGo#0: P = c_P
+
+// the body of a Go function built from a block: the statements in order, one per line, then the final
+// expression - returned, unless its type is unit (a unit result is no result)
+//@ func buildReturn
+//@   props C03
+//@   ghost S []string
+//@   panics may
+//@   ensures last-expression-is-returned-unless-unit: !is(Expr_EReturnableExpr, lastExpr) ==> result == ite(join_prefix(S, "\n", len(stmts)) == "", "", join_prefix(S, "\n", len(stmts)) + "\n") + ite(exprtype(lastExpr) == New_FType_FUnit, "", "return ") + eToGo(lastExpr)
+//@   ensures a-match-or-block-returns-by-itself: is(Expr_EReturnableExpr, lastExpr) ==> result == ite(join_prefix(S, "\n", len(stmts)) == "", "", join_prefix(S, "\n", len(stmts)) + "\n") + reToGoRet(Expr_EReturnableExpr_Value(lastExpr))
+//@   ensures statements-in-order: forall k int :: 0 <= k && k < len(stmts) ==> S[k] == sToGo(stmts[k])
+//@   at after call slice.Map#0: S = ret
+
+//@ func blockToGoReturn
+//@   props C03
+//@   panics may
+//@   ensures statements-in-order-then-the-final-expression: !is(Expr_EReturnableExpr, block.FinalExpr) && len(block.Stmts) == 0 ==> result == ite(exprtype(block.FinalExpr) == New_FType_FUnit, "", "return ") + eToGo(block.FinalExpr)
